@@ -32,7 +32,9 @@ SCENARIOS = {
                    dict(cap=[3072, 3, 3072], label='pB', traits=['t1']),
                    dict(cap=[1024, 1, 1024], label='_default', traits=['t1']),
                    dict(cap=[3072, 1, 1024], label='_default', traits=[]),
-                   dict(cap=[1024, 3, 3072], label='_default', traits=[])],
+                   dict(cap=[1024, 3, 3072], label='_default', traits=[]),
+                   # profile 3 without its trait: a re-registration that changes the traits only
+                   dict(cap=[1024, 1, 1024], label='_default', traits=[])],
         server_init={'s1': 1, 's2': 1, 's3': 2},
         allocsets=[[_alloc('proid/x', '_default', [('proid.web*', 1)]),
                     _alloc('proid/z', 'pB', [('proid.db*', 5)])],
@@ -132,7 +134,7 @@ SCENARIOS['dup']['traits'] = ['t1', 't2', 't1']
 SCENARIOS['dup']['sprofiles'] = list(SCENARIOS['base']['sprofiles']) + [
     dict(cap=[4096, 4, 4096], label='_default', traits=['x9']),
     dict(cap=[4096, 4, 4096], label='pB', traits=['x9', 't2'])]
-SCENARIOS['dup']['server_init'] = {'s1': 6, 's2': 3, 's3': 7}
+SCENARIOS['dup']['server_init'] = {'s1': 7, 's2': 3, 's3': 8}
 SCENARIOS['dup']['aprofiles'] = list(SCENARIOS['base']['aprofiles']) + [
     dict(name='other.app', demand=[512, 1, 512], affinity='app', traits=['x9'], data_retention_timeout='2s')]
 SCENARIOS['dup']['allocsets'] = list(SCENARIOS['base']['allocsets']) + [
@@ -456,6 +458,16 @@ def gen_servers(scn, rng, depth):
     hist.append(('Cycle', []))
     servers = sorted(s for s, k in scn['server_init'].items() if k)
     up = set(servers)
+    cur = dict(scn['server_init'])
+    if rng.random() < 0.5:
+        # start from a server that offers a trait some profile can drop
+        s0 = rng.choice(servers)
+        sp = scn['sprofiles']
+        withtwin = [j + 1 for j, q in enumerate(sp) if q['traits'] and any(
+            o['cap'] == q['cap'] and o['label'] == q['label'] and o['traits'] != q['traits'] for o in sp)]
+        if withtwin:
+            cur[s0] = rng.choice(withtwin)
+            hist = [('NodeDown', [s0]), ('NodeUp', [s0, cur[s0]])] + hist
     for _ in range(depth):
         r = rng.random()
         s = rng.choice(servers)
@@ -469,9 +481,15 @@ def gen_servers(scn, rng, depth):
                 hist.append(('NodeUp', [s, rng.randrange(len(scn['sprofiles'])) + 1]))
                 up.add(s)
         elif r < 0.55 and s in up:
-            # re-registration (reboot) with possibly different capacity
+            # re-registration (reboot) with possibly different capacity - or with the same
+            # capacity and partition and other traits
             hist.append(('NodeDown', [s]))
-            hist.append(('NodeUp', [s, rng.randrange(len(scn['sprofiles'])) + 1]))
+            sp = scn['sprofiles']
+            twin = [j + 1 for j, q in enumerate(sp)
+                    if q['cap'] == sp[cur[s] - 1]['cap'] and q['label'] == sp[cur[s] - 1]['label']
+                    and q['traits'] != sp[cur[s] - 1]['traits']]
+            cur[s] = rng.choice(twin) if twin and rng.random() < 0.5 else rng.randrange(len(sp)) + 1
+            hist.append(('NodeUp', [s, cur[s]]))
         elif r < 0.72:
             st = rng.choice(['frozen', 'frozen', 'up', 'down'])
             marked = [a for a in scn['apps'][:napps] if rng.random() < 0.3] if st == 'frozen' else []
